@@ -607,6 +607,7 @@ static void exec_convert(const op_t *op)
     static double complex min[OMAXF][OMAXN * OMAXN], z0[OMAXF][OMAXN];
     int have_in = 0;
     int x_direct = 2, x_eq = 2, x_rel = 2, x_chain = 2;
+    int zu_ids[OMAXF * OMAXN], zu_n = -1;	/* z0 handed to the direct call */
     outcome_t oc;
     int rv;
 
@@ -623,6 +624,13 @@ static void exec_convert(const op_t *op)
 	    }
 	    memcpy(min[f], m, (size_t)(rows * cols) * sizeof(double complex));
 	    memcpy(z0[f], z, (size_t)rows * sizeof(double complex));
+	}
+	if (have_in && rows > 0) {
+	    zu_n = 0;
+	    for (int f = 0; f < nf; ++f) {
+		for (int p2 = 0; p2 < rows; ++p2)
+		    zu_ids[zu_n++] = intern(z0[f][p2]);
+	    }
 	}
     }
     /* in place: what an out-of-place conversion of the same input gives */
@@ -699,8 +707,12 @@ static void exec_convert(const op_t *op)
     vt_put("{\"e\":\"Convert\",\"o\":%d,\"d\":%d,\"to\":\"%s\",", op->o, op->d,
 	    type_name(op->t));
     put_outcome(&oc);
-    vt_put(",\"x\":{\"direct\":%d,\"eqOut\":%d,\"rel\":%d,\"chain\":%d},",
-	    x_direct, x_eq, x_rel, x_chain);
+    vt_put(",\"x\":{\"direct\":%d,\"eqOut\":%d,\"rel\":%d,\"chain\":%d,"
+	    "\"zun\":%d,\"zu\":[", x_direct, x_eq, x_rel, x_chain,
+	    zu_n >= 0 ? rows : -1);
+    for (int i = 0; i < zu_n; ++i)
+	vt_put("%s%d", i ? "," : "", zu_ids[i]);
+    vt_put("]},");
     put_obs("obs", src);
     if (!inplace) {
 	vt_put(",");
@@ -1752,7 +1764,15 @@ static double complex rand_z0(vt_rng_t *r, int cls)
 }
 
 /* fill object o with a random well-scaled network of its own type */
+static void conv_fill_ex(vt_rng_t *r, int o, int fzmode, int set_z0);
 static void conv_fill(vt_rng_t *r, int o, int fzmode)
+{
+    conv_fill_ex(r, o, fzmode, 1);
+}
+
+/* set_z0 = 0: keep the impedances the object answers with (the network is
+ * built for them) and only give it new frequencies and matrices */
+static void conv_fill_ex(vt_rng_t *r, int o, int fzmode, int set_z0)
 {
     vnadata_t *v = obj[o];
     int type = (int)vnadata_get_type(v);
@@ -1770,7 +1790,12 @@ static void conv_fill(vt_rng_t *r, int o, int fzmode)
 	for (int p = 0; p < ports && p < OMAXN + 2; ++p)
 	    z0[f][p] = rand_z0(r, 1);
     }
-    if (!fzmode) {
+    if (!set_z0) {
+	for (int f = 0; f < nf && f <= OMAXF; ++f) {
+	    for (int p = 0; p < ports && p < OMAXN + 2; ++p)
+		z0[fzmode ? f : 0][p] = LIB(vnadata_get_fz0(v, f, p));
+	}
+    } else if (!fzmode) {
 	op_clear(&op, K_SETZ0VEC, o);
 	op.nvec = ports;
 	for (int p = 0; p < ports; ++p)
@@ -1822,6 +1847,34 @@ static void conv_fill(vt_rng_t *r, int o, int fzmode)
     }
 }
 
+/*
+ * shrink and regrow object o in one call each: kind 0 ports and frequencies
+ * together, 1 ports only, 2 frequencies only.  The regrown impedances,
+ * frequencies and cells must read 50 ohm / 0 / 0 whatever was there before.
+ */
+static void shrink_regrow(vt_rng_t *r, int o, int kind)
+{
+    vnadata_t *v = obj[o];
+    int rows = vnadata_get_rows(v), cols = vnadata_get_columns(v);
+    int nf = vnadata_get_frequencies(v);
+    int type = (int)vnadata_get_type(v);
+    int dp = 1 + vt_below(r, 2), df = 1 + vt_below(r, 2);
+    op_t op;
+
+    op_clear(&op, K_RESIZE, o);
+    op.t = VPT_UNDEF;
+    op.a[0] = kind == 2 ? rows : (rows - dp > 0 ? rows - dp : 0);
+    op.a[1] = kind == 2 ? cols : (cols - dp > 0 ? cols - dp : 0);
+    op.a[2] = kind == 1 ? nf : (nf - df > 0 ? nf - df : 0);
+    exec_op(&op);
+    op_clear(&op, K_RESIZE, o);
+    op.t = type;
+    op.a[0] = rows;
+    op.a[1] = cols;
+    op.a[2] = nf;
+    exec_op(&op);
+}
+
 static const int conv_nfs[3] = { 0, 1, 3 };
 #define CONV_VARIANTS 12	/* z0 mode x in-place x nf */
 
@@ -1846,6 +1899,12 @@ static void run_conv(uint64_t seed, long from, long to)
 	op.a[2] = nf;
 	exec_op(&op);
 	conv_fill(&r, 0, fzmode);
+	if (c % 2 == 0 && nf > 0 && row->rows > 0) {
+	    /* the source went through a shrink / regrow before: whatever
+	     * the vacated entries held must not come back */
+	    shrink_regrow(&r, 0, (int)((c / 2) % 3));
+	    conv_fill_ex(&r, 0, fzmode, 0);
+	}
 	origin_take(0);
 	if (!inplace) {
 	    /* destination with unrelated content in the other mode */
@@ -1870,7 +1929,27 @@ static void run_conv(uint64_t seed, long from, long to)
 	    int cnf = vnadata_get_frequencies(v);
 	    int ct = (int)vnadata_get_type(v);
 
-	    switch (i == 0 ? 0 : vt_below(&r, 5)) {
+	    switch (i == 0 ? 0 : vt_below(&r, 7)) {
+	    case 6:	/* touch one impedance (may switch the mode), convert */
+		op_clear(&op, vt_below(&r, 2) ? K_SETFZ0 : K_SETZ0, res);
+		if (op.kind == K_SETFZ0) {
+		    op.a[0] = pick_index(&r, cnf);
+		    op.a[1] = pick_index(&r, rows > cols ? rows : cols);
+		} else {
+		    op.a[0] = pick_index(&r, rows > cols ? rows : cols);
+		}
+		op.v = intern(rand_z0(&r, 1));
+		exec_op(&op);
+		op_clear(&op, K_CONVERT, res);
+		op.t = pick_type(&r, rows, cols);
+		exec_op(&op);
+		break;
+	    case 5:	/* shrink and regrow, then convert what is left */
+		shrink_regrow(&r, res, vt_below(&r, 3));
+		op_clear(&op, K_CONVERT, res);
+		op.t = pick_type(&r, rows, cols);
+		exec_op(&op);
+		break;
 	    case 0:		/* grow as UNDEF, then back */
 		op_clear(&op, K_RESIZE, res);
 		op.t = VPT_UNDEF;
